@@ -164,10 +164,15 @@ def step_checks(agg, obj, depth, out):
     if r is not None:
         ok("table.rshift.table", case, N + N, vnames(r))
     # arithmetic
-    for opn, op in (("add", operator.add), ("mul", operator.mul), ("truediv", operator.truediv)):
+    for opn, op in (("add", operator.add), ("mul", operator.mul), ("truediv", operator.truediv), ("sub", operator.sub), ("floordiv", operator.floordiv),
+                    ("mod", operator.mod), ("pow", operator.pow)):
         r = attempt("t+scalar", case, lambda: op(t, 2))
         if r is not None and type(r).__name__ == "Table":
             ok(f"table.{opn}.scalar", dict(case, op=opn), N, vnames(r))
+        # table-with-scalar arithmetic with the scalar written first (2 - t): the same columns, the same names
+        r = attempt("scalar+t", case, lambda: op(2, t))
+        if r is not None:
+            ok(f"table.{opn}.scalar-first", dict(case, op=opn, form="scalar op table"), N, vnames(r) if type(r).__name__ == "Table" else "not-a-table")
     for RN in itertools.product(NAMES, repeat=len(N)):
         t2 = Table([Vector(list(range(1, nrows + 1)), name=fresh(rn)) for rn in RN])
         want = [ln if (rn is None or rn == ln) else None for ln, rn in zip(N, RN)]
